@@ -38,17 +38,21 @@ Neg(a)       == a.sg = -1
 \* a > n for a fitting, non-negative argument and a small n (capacities are < 2^30)
 Above(a, n)  == ~IsSmall(a) \/ a.l0 > n
 
-\* "K" format: value masked to 64 bits, then the size class push_uint_var selects
-\* (0 = too big -> ValueError).  Negative -m with 0 < m <= 2^63 masks to >= 2^63.
+\* parse_uint(args, max): PyLong_AsUnsignedLongLong raises OverflowError for a
+\* negative int or one >= 2^64; a value above the type's maximum is a ValueError
+LeMax(a, k) == CASE k = 1 -> IsSmall(a) /\ a.l0 <= 255
+                 [] k = 2 -> IsSmall(a) /\ a.l0 <= 65535
+                 [] k = 4 -> a.l2 = 0 /\ a.l1 <= 3
+                 [] k = 8 -> TRUE
+UintParse(a, k) == IF Neg(a) \/ a.l2 >= 16 THEN "OverflowError"
+                   ELSE IF ~LeMax(a, k) THEN "ValueError" ELSE "ok"
+\* the size class push_uint_var selects for a parsed value (0 = too big -> ValueError)
 VarSize(a) ==
-  IF a.sg = -1 THEN 0
-  ELSE LET h == a.l2 % 16 IN
-       IF h = 0 /\ a.l1 = 0 /\ a.l0 <= 63 THEN 1
-       ELSE IF h = 0 /\ a.l1 = 0 /\ a.l0 <= 16383 THEN 2
-       ELSE IF h = 0 /\ a.l1 = 0 THEN 4
-       ELSE IF h < 4 THEN 8
-       ELSE 0
-VarArgOk(a) == a.sg # -1 \/ a.l2 < 8 \/ (a.l2 = 8 /\ a.l1 = 0 /\ a.l0 = 0)   \* the alphabet the model covers
+  IF a.l2 = 0 /\ a.l1 = 0 /\ a.l0 <= 63 THEN 1
+  ELSE IF a.l2 = 0 /\ a.l1 = 0 /\ a.l0 <= 16383 THEN 2
+  ELSE IF a.l2 = 0 /\ a.l1 = 0 THEN 4
+  ELSE IF a.l2 < 4 THEN 8
+  ELSE 0
 
 \* ---- outcomes ----------------------------------------------------------------
 Ok(s, pos2, ret, acc) == [st |-> [s EXCEPT !.pos = pos2], out |-> [kind |-> "ok", ret |-> ret], acc |-> acc]
@@ -88,12 +92,15 @@ PullVarF(s, lead) ==
 PushBytesF(s, n) ==
   IF s.pos + n > s.cap THEN Err(s, Wr) ELSE Ok(s, s.pos + n, -1, {<<s.pos, s.pos + n>>})
 
-PushFixedF(s, k) ==       \* "B", "H", "I", "K": any int is masked, never rejected
-  IF s.pos + k > s.cap THEN Err(s, Wr) ELSE Ok(s, s.pos + k, -1, {<<s.pos, s.pos + k>>})
+PushFixedF(s, k, a) ==
+  LET p == UintParse(a, k) IN
+  IF p # "ok" THEN Err(s, p)
+  ELSE IF s.pos + k > s.cap THEN Err(s, Wr) ELSE Ok(s, s.pos + k, -1, {<<s.pos, s.pos + k>>})
 
 PushVarF(s, a) ==
-  LET k == VarSize(a) IN
-  IF k = 0 THEN Err(s, "ValueError")
+  LET p == UintParse(a, 8)  k == VarSize(a) IN
+  IF p # "ok" THEN Err(s, p)
+  ELSE IF k = 0 THEN Err(s, "ValueError")
   ELSE IF s.pos + k > s.cap THEN Err(s, Wr) ELSE Ok(s, s.pos + k, -1, {<<s.pos, s.pos + k>>})
 
 (* the constructor Buffer(capacity=a): a negative capacity must be rejected; one
@@ -121,7 +128,7 @@ MethodF(s, call) ==
     [] call.m \in {"pull_uint8", "pull_uint16", "pull_uint32", "pull_uint64"} -> PullFixedF(s, FixedSize(call.m))
     [] call.m = "pull_uint_var" -> PullVarF(s, call.lead)
     [] call.m = "push_bytes"    -> PushBytesF(s, call.n)
-    [] call.m \in {"push_uint8", "push_uint16", "push_uint32", "push_uint64"} -> PushFixedF(s, FixedSize(call.m))
+    [] call.m \in {"push_uint8", "push_uint16", "push_uint32", "push_uint64"} -> PushFixedF(s, FixedSize(call.m), call.a)
     [] call.m = "push_uint_var" -> PushVarF(s, call.a)
 
 Methods == {"tell", "eof", "capacity", "data", "seek", "data_slice", "pull_bytes", "pull_uint8", "pull_uint16",
@@ -137,15 +144,17 @@ StepOk(s, res) ==
   /\ res.out.kind # "ok" => res.st = s /\ res.acc = {}
 
 \* ---- model-checking configuration: every method sequence up to MaxDepth --------
-IntArgs(cap) == {Small(n) : n \in {-1, 0, 1, 2, cap - 1, cap, cap + 1, 63, 64, 16383, 16384}}
-                \cup {P31, P62m1, P62, P63m1, P63, M63, M63m1, P64m1}
+P32m1     == [sg |-> 1,  l0 |-> B30 - 1, l1 |-> 3,       l2 |-> 0]      \* 2^32 - 1
+P32       == [sg |-> 1,  l0 |-> 0,       l1 |-> 4,       l2 |-> 0]      \* 2^32
+P64       == [sg |-> 1,  l0 |-> 0,       l1 |-> 0,       l2 |-> 16]     \* 2^64
+IntArgs(cap) == {Small(n) : n \in {-1, 0, 1, 2, cap - 1, cap, cap + 1, 63, 64, 255, 256, 16383, 16384, 65535, 65536}}
+                \cup {P31, P32m1, P32, P62m1, P62, P63m1, P63, M63, M63m1, P64m1, P64}
 Call(m, a, b, n, lead) == [m |-> m, a |-> a, b |-> b, n |-> n, lead |-> lead]
 Z == Small(0)
 Alphabet(cap) ==
-  {Call(m, Z, Z, 0, 0) : m \in {"tell", "eof", "capacity", "data", "pull_uint8", "pull_uint16", "pull_uint32", "pull_uint64",
-                                 "push_uint8", "push_uint16", "push_uint32", "push_uint64"}}
-  \cup {Call(m, a, Z, 0, 0) : m \in {"seek", "pull_bytes"}, a \in IntArgs(cap)}
-  \cup {Call("push_uint_var", a, Z, 0, 0) : a \in {x \in IntArgs(cap) : VarArgOk(x)}}
+  {Call(m, Z, Z, 0, 0) : m \in {"tell", "eof", "capacity", "data", "pull_uint8", "pull_uint16", "pull_uint32", "pull_uint64"}}
+  \cup {Call(m, a, Z, 0, 0) : m \in {"seek", "pull_bytes", "push_uint_var", "push_uint8", "push_uint16", "push_uint32",
+                                      "push_uint64"}, a \in IntArgs(cap)}
   \cup {Call("data_slice", a, b, 0, 0) : a \in IntArgs(cap), b \in IntArgs(cap)}
   \cup {Call("pull_uint_var", Z, Z, 0, lead) : lead \in 0..3}
   \cup {Call("push_bytes", Z, Z, n, 0) : n \in {0, 1, 2, cap - 1, cap, cap + 1, 9} \cap Nat}
